@@ -469,27 +469,76 @@ def check_filter_boundaries(extra=()):
     return None
 
 
-def check_misc_filter():
-    """Extension / pattern / full-path clauses and get_full_path on a small lattice."""
+EXT_NAMES = ["a.PDF", "a.pdf", "b.Docx", "pdf", "x.pdf.bak", "Ü.PdF", "backup.tar.gz", "BACKUP.TAR.GZ", "plain.gz", "types.d.ts",
+             "main.ts", "noext", ".hidden", "a.b.c", "v1.2.docx", "trailing.", "a.pdf ", "dir.d/x"]
+EXT_SETS = [[".pdf"], [".PDF", ".docx"], [".tar.gz"], [".Tar.Gz", ".docx"], [".gz"], [".d.ts"], [".ts"], [".pdf.bak"], [".bak"],
+            ["pdf"], ["gz", ".c"], [""], ["."], ["x.pdf.bak"], [".hidden"], [".b.c"], [".2.docx"], []]
+PARENTS = [None, "", "Docs", "Docs/sub", "My Folder", "a.pdf", "*"]
+PATTERN_SETS = [["*.pdf"], ["Docs/*"], ["*/sub/*", "a.*"], ["Docs*"], ["a.pdf"], ["[ab].*"], ["?.pdf"], ["*"], []]
+
+
+def check_one_filter(fd, n, pp):
     from sharepoint2text.sharepoint_io.client import FileFilter, SharePointFileMetadata
-    names = ["a.PDF", "a.pdf", "b.Docx", "pdf", "x.pdf.bak", "Ü.PdF"]
-    parents = [None, "", "Docs", "Docs/sub", "My Folder"]
-    fds = [{"extensions": [".pdf"]}, {"extensions": [".PDF", ".docx"]}, {"path_patterns": ["*.pdf"]}, {"path_patterns": ["Docs/*"]},
-           {"path_patterns": ["*/sub/*", "a.*"]}, {"extensions": [".pdf"], "path_patterns": ["Docs*"]}, {"extensions": []}, {}]
-    for n in names:
-        for pp in parents:
+    meta = SharePointFileMetadata(name=n, id="1", web_url="u", parent_path=pp)
+    want = spec_matches(fd, (n, pp, None, None))
+    try:
+        got = FileFilter(**fd).matches(meta)
+    except Exception as e:  # noqa
+        got = f"{type(e).__name__}: {e}"
+    if got != want:
+        return {"target": "sharepoint2text/sharepoint_io/client.py::FileFilter.matches",
+                "inputs": {"filter": fd, "file": {"name": n, "parent_path": pp}},
+                "expected": f"matches == {want} (case-insensitive suffix / fnmatch on the full path)", "observed": f"matches == {got}"}
+    return None
+
+
+def check_misc_filter(extra=()):
+    """Extension / pattern / full-path clauses and get_full_path on a directed lattice: single and multi-part
+    extensions, extensions without a dot, empty ones, names with several dots / none / a leading dot."""
+    from sharepoint2text.sharepoint_io.client import SharePointFileMetadata
+    for (fd, n, pp) in extra:
+        r = check_one_filter(fd, n, pp)
+        if r is not None:
+            return r
+    for n in EXT_NAMES:
+        for pp in PARENTS:
             meta = SharePointFileMetadata(name=n, id="1", web_url="u", parent_path=pp)
             want_fp = f"{pp}/{n}" if pp else n
             if meta.get_full_path() != want_fp:
                 return {"target": "client.py::SharePointFileMetadata.get_full_path", "inputs": {"name": n, "parent_path": pp},
                         "expected": want_fp, "observed": meta.get_full_path()}
-            for fd in fds:
-                want = spec_matches(fd, (n, pp, None, None))
-                got = FileFilter(**fd).matches(meta)
-                if got != want:
-                    return {"target": "client.py::FileFilter.matches", "inputs": {"filter": fd, "file": {"name": n, "parent_path": pp}},
-                            "expected": f"matches == {want}", "observed": f"matches == {got}"}
+            for exts in EXT_SETS:
+                r = check_one_filter({"extensions": exts}, n, pp)
+                if r is not None:
+                    return r
+    for n in EXT_NAMES:
+        for pp in PARENTS:
+            for pats in PATTERN_SETS:
+                for exts in ([], [".pdf"], [".tar.gz", "pdf"]):
+                    r = check_one_filter({"extensions": exts, "path_patterns": pats}, n, pp)
+                    if r is not None:
+                        return r
     return None
+
+
+def witness_filters(w):
+    """Candidate (filter, name, parent) triples from a solver witness of the FileFilter.matches obligation: the model's
+    name / extensions / patterns, plus variants (the uninterpreted `lower` / `fnmatch` of the model need not be real)."""
+    out = []
+    if not isinstance(w, dict):
+        return out
+    fm = w.get("file_meta") if isinstance(w.get("file_meta"), dict) else {}
+    names = [x for x in [fm.get("name")] if isinstance(x, str)]
+    def lst(key):
+        d = w.get(key)
+        if isinstance(d, dict) and isinstance(d.get("len"), int) and isinstance(d.get("first"), list):
+            return [x for x in d["first"][:max(0, min(d["len"], 3))] if isinstance(x, str)]
+        return []
+    exts, pats = lst("extensions"), lst("path_patterns")
+    for n in names + [x + y for x in names for y in exts][:4]:
+        for pp in (None, "Docs"):
+            out.append(({"extensions": exts, "path_patterns": pats}, n, pp))
+    return out
 
 
 def check_parse_assumptions():
@@ -573,8 +622,10 @@ def witness_stamps(w):
 
 def find(req):
     ob = req.get("obligation") or ""
-    if "_parse_iso_datetime" in ob or "FileFilter.matches" in ob:
-        r = check_filter_boundaries(extra=witness_stamps(req.get("witness")))
+    if "_parse_iso_datetime" in ob or "FileFilter.matches" in ob or "get_full_path" in ob:
+        r = check_misc_filter(extra=witness_filters(req.get("witness"))) if "matches" in ob else None
+        if r is None:
+            r = check_filter_boundaries(extra=witness_stamps(req.get("witness")))
         if r is None:
             r = check_misc_filter()
     elif "fetch_access_token" in ob:
@@ -604,7 +655,7 @@ def rerun(stored):
             field = "created" if which[0].startswith("created") else "last_modified"
             r = check_matches_once(inp["file"][field], fd[which[0]], which[0])
         else:
-            r = check_misc_filter()
+            r = check_one_filter(fd, inp["file"].get("name", ""), inp["file"].get("parent_path"))
         return dict(r or {}, reproduced=r is not None)
     if "seed" in inp:
         f = inp.get("fault")
